@@ -32,7 +32,7 @@ func init() {
 	})
 	register("C10", &propDef{
 		Title: "Bundle package directories are sanitised",
-		Rules: []func(*Checker){ruleC10Walked, ruleC10Exits, ruleC10Links, aliasRuleFiltered(ruleC13Names, "C13.names", "C10.hash", 1, func(o Oblig) bool { return strings.Contains(o.Key, "directory name is a content hash") }), ruleC10Tmp, ruleC10Inside, ruleC03PruneAs("C10.ignored"), ruleC03BundleAs("C10.removed")},
+		Rules: []func(*Checker){ruleC10Walked, ruleC10Exits, ruleC10Links, aliasRuleFiltered(ruleC13Names, "C13.names", "C10.hash", 1, func(o Oblig) bool { return strings.Contains(o.Key, "directory name is a content hash") }), ruleC10Tmp, ruleC10Inside, ruleC03PruneAs("C10.ignored"), ruleC03BundleAs("C10.removed"), ruleBuilderAbsDir("C10.absdir")},
 		NotDecided: []string{
 			"what filepath.EvalSymlinks resolves to; races with other processes modifying the temporary directory",
 			"what the fetcher itself writes",
@@ -2312,5 +2312,41 @@ func ruleTracerNonNil(id string) func(*Checker) {
 				c.check(okVal(r.Results[0], r.Block(), nil, map[ssa.Value]bool{}), id, p.FuncName(fn), fmt.Sprintf("return %d is not nil", i), p.Pos(r.Pos()), "a package-level table, or an asserted value on its ok edge", "the tracer returned can be nil (a failed type assertion's zero value is returned as it is): the first `trace.X` of any build on a context without a tracer panics")
 			}
 		}
+	}
+}
+
+// C10.absdir — the builder works in an absolute directory.
+func ruleBuilderAbsDir(id string) func(*Checker) {
+	return func(c *Checker) {
+		c.rule(id, "The value stored in Builder.targetDir by the constructor passes through filepath.Abs: every package directory, the manifest and every forward lookup are joined onto it, so a relative one (filepath.EvalSymlinks does not make a path absolute) follows the process's working directory — after a chdir the bundle is written into, and read from, another place.", 1)
+		p := c.P
+		n := 0
+		for _, fn := range p.Funcs {
+			if !inBundlePkg(p, fn) {
+				continue
+			}
+			eachInstr(fn, func(in ssa.Instruction) {
+				st, ok := in.(*ssa.Store)
+				if !ok {
+					return
+				}
+				fa, ok := st.Addr.(*ssa.FieldAddr)
+				if !ok || !isNamedT(derefType(fa.X.Type()), "Builder") || fieldOf(fa) == nil || fieldOf(fa).Name() != "targetDir" {
+					return
+				}
+				if _, isC := st.Val.(*ssa.Const); isC {
+					return
+				}
+				n++
+				viaAbs := false
+				for w := range p.backSlice(st.Val, 0) {
+					if cl, ok := w.(*ssa.Call); ok && isFunc(calleeObj(cl), "path/filepath", "Abs") {
+						viaAbs = true
+					}
+				}
+				c.check(viaAbs, id, p.FuncName(fn), "targetDir made absolute", p.Pos(st.Pos()), "filepath.Abs", "the builder's directory is stored without passing through filepath.Abs: given a relative directory it follows the working directory")
+			})
+		}
+		_ = n
 	}
 }
